@@ -7,6 +7,7 @@ CONSTANTS
  ReqChoices = {1}
  NChunks = 4
  MaxIds = 3
+ AllowKnown <- FalseValue
 CHECK_DEADLOCK FALSE
 VIEW NoOutView
 INVARIANTS TypeOK Order LossOverflow LossNoOverflow Recipients RefExact FreeIffZero ChunkUnique NoLeak Conservation ChunksSuffice UsedBound LoanInside LimitsRespected
